@@ -12,7 +12,7 @@ import uuid
 from vlib.mc import enum as E
 
 PROPERTY = 'C14'
-LEVEL = 'exploration'
+LEVEL = 'model_checking'
 ENGINE = 'C'
 TECHNIQUE = ('stateless bounded model checking: complete enumeration of input-shape products against '
              'reference classifiers')
